@@ -5,6 +5,7 @@ import (
 	"go/token"
 	"go/types"
 	"strings"
+	"sync"
 )
 
 // Environment stubs (DESIGN.md 2.3). Every stub is part of the claim; hits
@@ -114,11 +115,25 @@ func init() {
 		return mkString(s[1].([]value))
 	}
 	externals["internal/abi.NoEscape"] = func(fr *frame, args []value) value { return args[0] }
-	externals["regexp.MustCompile__opaque"] = func(fr *frame, args []value) value {
-		// opaque: a pointer to a zero Regexp; using it is not encodable
-		t := fr.i.prog.ImportedPackage("regexp").Type("Regexp").Type()
-		v := zero(t)
-		return &v
+	// Compiled regular expressions are immutable: compile each pattern once
+	// per process with the real code and share the object between paths.
+	externals["regexp.MustCompile"] = func(fr *frame, args []value) value {
+		pat, ok := args[0].(string)
+		if !ok {
+			return runRealCode{}
+		}
+		reCacheMu.Lock()
+		defer reCacheMu.Unlock()
+		if v, ok := reCache[pat]; ok {
+			return v
+		}
+		comp := fr.i.prog.ImportedPackage("regexp").Func("Compile")
+		r := call(fr.i, fr, token.NoPos, comp, []value{pat}).(tuple)
+		if e, _ := r[1].(iface); e.t != nil {
+			return runRealCode{} // let the real MustCompile panic
+		}
+		reCache[pat] = r[0]
+		return r[0]
 	}
 }
 
@@ -150,11 +165,12 @@ func (i *interpreter) setupEnv() {
 	for _, a := range i.env.Args {
 		args = append(args, a)
 	}
-	*i.globals[osp.Var("Args")] = args
+	*i.globalCell(osp.Var("Args")) = args
 	ft := osp.Type("File").Type()
-	for _, n := range []string{"Stdin", "Stdout", "Stderr"} {
+	for k, n := range []string{"Stdin", "Stdout", "Stderr"} {
 		v := zero(ft)
-		*i.globals[osp.Var(n)] = &v
+		*i.globalCell(osp.Var(n)) = &v
+		i.files[&v] = k
 	}
 }
 
@@ -360,8 +376,13 @@ func init() {
 }
 
 func (i *interpreter) globalAddr(pkg, name string) *value {
-	return i.globals[i.prog.ImportedPackage(pkg).Var(name)]
+	return i.globalCell(i.prog.ImportedPackage(pkg).Var(name))
 }
+
+var (
+	reCacheMu sync.Mutex
+	reCache   = map[string]value{}
+)
 
 // runRealCode is returned by a conditional stub to run the function's SSA.
 type runRealCode struct{}
@@ -511,4 +532,82 @@ func init() {
 	externals["fmt.Sprint"] = fmtOpaque(0, false)
 	externals["fmt.Sprintln"] = fmtOpaque(0, false)
 	externals["fmt.Errorf"] = fmtOpaque(1, true)
+}
+
+// ---- recording stub for time formatting (DESIGN.md C16) ----
+//
+// With vStubTimeFormat(true), (time.Time).AppendFormat appends a token that
+// is an injective image of (wall, ext, loc, layout): two tokens are equal
+// iff the instant representation, the zone and the layout are identical.
+// Formatting itself is the standard library's and outside the claim.
+
+func wordCells(v value) []value {
+	out := make([]value, 8)
+	if s, ok := v.(sv); ok {
+		tt := s.T.tt
+		for k := 0; k < 8; k++ {
+			out[k] = norm(tt.Extract(s.T, 8*k+7, 8*k), types.Uint8)
+		}
+		return out
+	}
+	_, u, _ := kindOf(v)
+	for k := 0; k < 8; k++ {
+		out[k] = uint8(u >> (8 * k))
+	}
+	return out
+}
+
+func init() {
+	externals["(time.Time).AppendFormat"] = func(fr *frame, args []value) value {
+		if fr.i.path == nil || !fr.i.path.stubTimeFormat {
+			return runRealCode{}
+		}
+		t := args[0].(structure)
+		b := args[1].([]value)
+		var cells []value
+		cells = append(cells, strCells("T<")...)
+		cells = append(cells, wordCells(t[0])...)
+		cells = append(cells, wordCells(t[1])...)
+		loc := t[2].(*value)
+		id, ok := fr.i.locIDs[loc]
+		if !ok {
+			id = len(fr.i.locIDs) + 1
+			if loc == nil {
+				id = 0
+			}
+			fr.i.locIDs[loc] = id
+		}
+		cells = append(cells, uint8('0'+id))
+		cells = append(cells, strCells(">")...)
+		cells = append(cells, strCells(args[2])...)
+		cells = append(cells, strCells("#")...)
+		return append(b, cells...)
+	}
+	externals["(time.Time).Format"] = func(fr *frame, args []value) value {
+		if fr.i.path == nil || !fr.i.path.stubTimeFormat {
+			return runRealCode{}
+		}
+		r := externals["(time.Time).AppendFormat"](fr, []value{args[0], []value(nil), args[1]})
+		return mkString(r.([]value))
+	}
+}
+
+// ---- recording sink files (os.Stdout, os.Stderr, vFile) ----
+
+func init() {
+	externals["(*os.File).Write"] = func(fr *frame, args []value) value {
+		f := args[0].(*value)
+		id, ok := fr.i.files[f]
+		if !ok {
+			panic(engineError{"not encodable: Write to an *os.File that is not a recording sink"})
+		}
+		b := args[1].([]value)
+		fr.i.fileData[id] = append(fr.i.fileData[id], append([]value{}, b...))
+		return tuple{len(b), iface{}}
+	}
+	externals["(*os.File).WriteString"] = func(fr *frame, args []value) value {
+		return externals["(*os.File).Write"](fr, []value{args[0], strCells(args[1])})
+	}
+	externals["(*os.File).Close"] = func(fr *frame, args []value) value { return iface{} }
+	externals["(*os.File).Fd"] = func(fr *frame, args []value) value { return uintptr(99) }
 }
